@@ -1,12 +1,14 @@
 //! Per-property recording commands, one module per property (registered here).
 use crate::Args;
 pub mod c07;
+pub mod c12;
 pub mod c16;
 pub mod c17;
 
 pub fn dispatch(_cmd: &str, _a: &Args) -> bool {
     match _cmd {
         "c07" => c07::run(_a),
+        "c12" => c12::run(_a),
         "c16" => c16::run(_a),
         "c17" => c17::run(_a),
         _ => return false,
